@@ -943,17 +943,19 @@ class Crystal(object):
         modified = False
         # check the possible vector reductions (edited to handle 2 and 3 dimensions)
         asq = np.dot(self.lattice.T, self.lattice)
-        u = np.around(asq[0, 1] / asq[0, 0])
+        # a projection of exactly half a lattice vector (e.g. the FCC primitive cell) is a tie: reducing it does not shorten
+        # anything, and with roundoff (rotated Cartesian frame) rounding 0.5 +- 1e-16 up and down alternately never terminates
+        u = np.around(asq[0, 1] / asq[0, 0] * (1 - 1e-8))
         if u != 0:
             super[0, 1] = -int(u)
             modified = True
         elif self.dim > 2:
-            u = np.around(asq[0, 2] / asq[0, 0])
+            u = np.around(asq[0, 2] / asq[0, 0] * (1 - 1e-8))
             if u != 0:
                 super[0, 2] = -int(u)
                 modified = True
             else:
-                u = np.around(asq[1, 2] / asq[1, 1])
+                u = np.around(asq[1, 2] / asq[1, 1] * (1 - 1e-8))
                 if u != 0:
                     super[1, 2] = -int(u)
                     modified = True
